@@ -67,26 +67,26 @@ Definition msa_read_eqb (a b : msa_read) : bool :=
 Definition state_eqb (eqb : msa_read -> msa_read -> bool) (a b : list (Z * msa_read)) : bool :=
   list_eqb (fun p q => (fst p =? fst q) && eqb (snd p) (snd q)) a b.
 
+Definition triples_eqb (a b : list (str * Z * msa_read)) : bool :=
+  list_eqb (fun p q => str_eqb (fst (fst p)) (fst (fst q)) && (snd (fst p) =? snd (fst q)) && msa_read_eqb (snd p) (snd q)) a b.
+Definition expected_triples (l : list (str * list (Z * list str * msa))) : list (str * Z * msa_read) :=
+  concat (map (fun p => map (fun e => (fst p, fst (fst e), expected_read (snd e))) (snd p)) l).
+Definition ref_okb (ref : str) : bool := clean_strb ref && negb (existsb (fun x => (x =? 62) || (x =? 34)) ref).
+
 Record msa_case := {
-  mc_ref : str;
-  mc_saved : list (Z * list str * msa);       (* key, stamp lines, msa of the object that is saved (dictionary order) *)
-  mc_seqs : list (list (list str));           (* its msa['seqs'], per cognate set *)
+  mc_sections : list (str * list (Z * list str * msa));
+                                              (* per reference column: key, stamp lines, msa of the object that is saved *)
+  mc_seqs : list (list (list str));           (* its msa['seqs'], block by block *)
   mc_pre : list str;                          (* implementation: the lines it wrote before the data *)
-  mc_load : res (list (Z * msa_read))         (* implementation: msa[ref] of the loaded object (dictionary order) *)
+  mc_load : res (list (str * Z * msa_read))   (* implementation: msa[ref][key] of the loaded object, in dictionary order *)
 }.
 Definition msa_case_code (c : msa_case) : nat :=
-  let model_load := match read_msa_section (mc_pre c) with
-                    | Ok l => Ok (map (fun e => (snd (fst e), snd e)) l)
-                    | Err => Err
-                    end in
-  let in_guard := forallb (fun e => msa_okb (snd e)) (mc_saved c)
-                  && rows_eqb (concat (map (fun e => map degap (m_alm (snd e))) (mc_saved c))) (concat (mc_seqs c))
-                  && clean_strb (mc_ref c) && negb (existsb (fun x => (x =? 32) || (x =? 61) || (x =? 62) || (x =? 34)) (mc_ref c)) in
-  bit 0 (lines_eqb (msa_section (mc_ref c) (mc_saved c)) (mc_pre c)
-         && res_eqb (state_eqb msa_read_eqb) model_load (mc_load c))
-  + bit 7 (negb in_guard
-           || res_eqb (state_eqb msa_read_eqb)
-                (Ok (map (fun e => (fst (fst e), expected_read (snd e))) (mc_saved c))) (mc_load c)).
+  let blocks := concat (map (fun p => snd p) (mc_sections c)) in
+  let in_guard := forallb (fun p => ref_okb (fst p) && forallb (fun e => msa_okb (snd e)) (snd p)) (mc_sections c)
+                  && rows_eqb (concat (map (fun e => map degap (m_alm (snd e))) blocks)) (concat (mc_seqs c)) in
+  bit 0 (lines_eqb (msa_sections (mc_sections c)) (mc_pre c)
+         && res_eqb triples_eqb (read_msa_section (mc_pre c)) (mc_load c))
+  + bit 7 (negb in_guard || res_eqb triples_eqb (Ok (expected_triples (mc_sections c))) (mc_load c)).
 
 (* ------------------------------------------------------------------ *)
 (* save / load case *)
